@@ -30,8 +30,28 @@ type sched struct {
 	mu    sync.Mutex
 	gates map[string]chan struct{}
 	at    map[string]string
-	pass  bool // pass-through (drain phase)
+	pass  bool // pass-through for every process (drain, second phase)
+	passR bool // pass-through for the readers only (drain, first phase)
 	log   []string
+	// cause bookkeeping for the lost wake-up finding: the heights whose notification has fired (everything stored
+	// when the writer reaches flush.notified), and for every reader whether its height was among them when it went
+	// on to subscribe (left wait.afterCheck)
+	probe    func() map[int]bool // heights stored right now (never gated)
+	notified map[int]bool
+	waitH    map[string]int
+	late     map[string]bool
+}
+
+// leaving: proc is about to continue from point (called with s.mu held)
+func (s *sched) leaving(proc, point string) {
+	if point == "wait.afterCheck" {
+		s.late[proc] = s.notified[s.waitH[proc]]
+	}
+}
+
+func newSched() *sched {
+	return &sched{gates: map[string]chan struct{}{}, at: map[string]string{}, notified: map[int]bool{},
+		waitH: map[string]int{}, late: map[string]bool{}}
 }
 
 func (s *sched) hook(ctx context.Context, point string, args ...uint64) {
@@ -41,10 +61,27 @@ func (s *sched) hook(ctx context.Context, point string, args ...uint64) {
 			proc = v
 		}
 	}
+	if proc == "X" {
+		return // the harness's own probes
+	}
+	var stored map[int]bool
+	if proc == "W" && point == "flush.notified" && s.probe != nil {
+		stored = s.probe()
+	}
 	s.mu.Lock()
-	if s.pass {
+	for h := range stored {
+		s.notified[h] = true
+	}
+	if point == "wait.afterCheck" && len(args) > 0 {
+		s.waitH[proc] = int(args[0])
+	}
+	if s.pass || (s.passR && proc != "W") {
+		s.leaving(proc, point)
 		s.mu.Unlock()
 		return
+	}
+	for s.gates[proc] != nil {
+		proc += "'" // a second goroutine acting for the same process (e.g. SetHeight called from a deleter)
 	}
 	ch := make(chan struct{})
 	s.gates[proc] = ch
@@ -59,6 +96,7 @@ func (s *sched) release(proc string) bool {
 	s.mu.Lock()
 	ch, ok := s.gates[proc]
 	if ok {
+		s.leaving(proc, s.at[proc])
 		delete(s.gates, proc)
 		delete(s.at, proc)
 	}
@@ -77,21 +115,33 @@ func (s *sched) where(proc string) string {
 	return s.at[proc]
 }
 
-// drain switches to pass-through and releases everything that is parked.
+// drain releases everything that is parked and switches to pass-through, readers first: every reader runs until
+// it has returned or subscribed before the writer moves on, so that "subscribed before / after the notification"
+// is a fact of the run and not of the Go scheduler.
 func (s *sched) drain() {
-	s.mu.Lock()
-	s.pass = true
-	var chs []chan struct{}
-	for k, ch := range s.gates {
-		chs = append(chs, ch)
-		delete(s.gates, k)
-		delete(s.at, k)
+	for _, phase := range []string{"readers", "all"} {
+		s.mu.Lock()
+		if phase == "readers" {
+			s.passR = true
+		} else {
+			s.pass = true
+		}
+		var chs []chan struct{}
+		for k, ch := range s.gates {
+			if phase == "readers" && k == "W" {
+				continue
+			}
+			s.leaving(k, s.at[k])
+			chs = append(chs, ch)
+			delete(s.gates, k)
+			delete(s.at, k)
+		}
+		s.mu.Unlock()
+		for _, ch := range chs {
+			close(ch)
+		}
+		synctest.Wait()
 	}
-	s.mu.Unlock()
-	for _, ch := range chs {
-		close(ch)
-	}
-	synctest.Wait()
 }
 
 type reader struct {
@@ -114,6 +164,7 @@ type Record struct {
 	HeadSeq  []int    `json:"headseq"` // Head().Height() observed after every step
 	HsSeq    []int    `json:"hsseq"`   // Height() observed after every step
 	Steps    int      `json:"steps"`
+	Cfg      string   `json:"cfg,omitempty"` // free exploration: the generated configuration
 }
 
 type RdrOut struct {
@@ -125,6 +176,8 @@ type RdrOut struct {
 	BlockedAfter  bool   `json:"blockedAfter"`  // still blocked after the drain (writer idle, every gate released)
 	ReleasedByCtx bool   `json:"releasedByCtx"` // returned after its context was cancelled at the end
 	CancelledMid  bool   `json:"cancelledMid"`  // the schedule itself cancelled the context
+	// cause bookkeeping: the batch holding Want had already been notified when this reader went on to subscribe
+	SubAfterNotify bool `json:"subAfterNotify"`
 }
 
 func pcOf(s *sched, r *reader) string {
@@ -178,7 +231,17 @@ func runSchedule(t *testing.T, id int, c map[string]any, tw, rw *mbt.Writer) {
 		}
 		_ = st.Append(bg, chain.At(1))
 		synctest.Wait()
-		sc := &sched{gates: map[string]chan struct{}{}, at: map[string]string{}}
+		sc := newSched()
+		sc.probe = func() map[int]bool {
+			out := map[int]bool{}
+			x := context.WithValue(bg, procKey{}, "X")
+			for h := uint64(1); h <= 12; h++ {
+				if ok, _ := st.Has(x, chain.At(h).Hash()); ok {
+					out[int(h)] = true
+				}
+			}
+			return out
+		}
 		store.VerifHook = sc.hook
 		defer func() { store.VerifHook = nil }()
 		var mu sync.Mutex
@@ -308,6 +371,7 @@ func runSchedule(t *testing.T, id int, c map[string]any, tw, rw *mbt.Writer) {
 				out.Res = "blocked"
 			}
 			out.ReleasedByCtx = blocked[r.id] && r.done
+			out.SubAfterNotify = sc.late[fmt.Sprintf("R%d", r.id)]
 			rec0.Readers = append(rec0.Readers, out)
 		}
 		mu.Unlock()
